@@ -17,6 +17,8 @@ def build_stream(ctx: fw.Ctx, enum_stride: int, n_random: int, max_ops: int, enu
         if (i + enum_offset + ctx.seed) % enum_stride != 0:
             continue
         hists.append(ec.run_real(text, ops, dict(info, stream="enum")))
+    for text, ops, info in docs.enumerate_special():
+        hists.append(ec.run_real(text, ops, dict(info, stream="special")))
     for _ in range(n_random):
         text, info = docs.gen_doc(ctx.rng)
         ops = docs.gen_ops(text, ctx.rng, ctx.rng.randint(1, max_ops))
@@ -26,6 +28,19 @@ def build_stream(ctx: fw.Ctx, enum_stride: int, n_random: int, max_ops: int, enu
             ctx.count("op:" + r.op[0] + ":" + r.result)
         ctx.count("doc:" + str(h.info.get("class", h.info.get("wrapper"))))
     return hists
+
+
+import re as _re
+
+_SEG = r'(?:[A-Za-z_][A-Za-z0-9_\']*|"(?:[^"\\]|\\.)*")'
+_PATH_RE = _re.compile(r"@*" + _SEG + r"(?:\." + _SEG + r")*\Z", _re.DOTALL)
+
+
+def path_wellformed(path: str) -> bool:
+    """The NPath grammar as the properties state it (C12): optional `@` selectors, then segments
+    separated by unquoted dots, each segment either bare (letters, digits, `_`, `'`, not starting
+    with a digit or `'`) or quoted with `\\"` and `\\\\` escapes. Everything else is malformed."""
+    return bool(_PATH_RE.match(path))
 
 
 def shape_of_path(path: str) -> str:
@@ -118,7 +133,7 @@ def spec_rm(tree: dict, names: list[str], attrpath_parents: set):
     return t
 
 
-def attrpath_parents_in(binding_nodes) -> set:
+def attrpath_parents_in(binding_nodes, mode: str = "parents") -> set:
     """Paths (tuples of names) that exist in a binding sequence only as attrpath prefixes
     (`a.b = 1;` makes ('a',) an attrpath parent)."""
     out = set()
@@ -141,6 +156,10 @@ def attrpath_parents_in(binding_nodes) -> set:
                 walk(bs[0].named_children if bs else [], prefix + names)
 
     walk(binding_nodes, [])
+    if mode == "prefixes":
+        return out
+    if mode == "mixed":
+        return out & explicit
     return out - explicit
 
 
@@ -151,6 +170,23 @@ def attrpath_parents_of(text: str) -> set:
         return set()
     bs = [c for c in tgt.named_children if c.type == "binding_set"]
     return attrpath_parents_in(bs[0].named_children if bs else [])
+
+
+def attrpath_prefixes_of(text: str, mode: str = "prefixes") -> set:
+    """every proper prefix of a dotted binding of the target set (`mode="mixed"`: those that are ALSO
+    defined by an explicit binding, e.g. `a = { … }; a.b = 2;` — valid Nix, the definitions merge)"""
+    root = cstread.ts_parse(text)
+    tgt = cstread.find_target(root)
+    if tgt is None:
+        return set()
+    bs = [c for c in tgt.named_children if c.type == "binding_set"]
+    return attrpath_parents_in(bs[0].named_children if bs else [], mode)
+
+
+def quoted_identifier_segment(path: str) -> bool:
+    """does the path have a quoted segment whose content is a plain identifier (`a."b".c`)? The tool
+    treats `"b"` and `b` as different names (open C12 finding)"""
+    return bool(_re.search(r'(?:^|[.@])"[A-Za-z_][A-Za-z0-9_\']*"(?:\.|$)', path))
 
 
 def let_layer_parents(text: str) -> list[set]:
